@@ -134,6 +134,8 @@ func runC07(e *Engine, res *EpisodeResult) {
 			e.violate("C07.result", "call returned %q but its context was not cancelled before it returned", ra.Err)
 		} else if !ra.ErrIs[ctxErrName] {
 			e.violate("C07.result", "call returned %q, which is not this context's error (%s)", ra.Err, ctxErrName)
+		} else if !ra.ErrIs["ctx"] {
+			e.violate("C07.result", "call returned %q, which is not what the context's own Err() reports after the call", ra.Err)
 		}
 	default:
 		if !termA {
